@@ -399,17 +399,23 @@ def run(ctx):
         for n in g.walk():
             if n['k'] != 'IfStmt':
                 continue
-            cn = g.unwrap(g.N[n['cond']])
-            if cn.get('k') != 'BinaryOperator' or cn.get('op') not in ('>', '>='):
-                continue
-            l_, r_ = g.unwrap(g.N[cn['kids'][0]]), g.N[cn['kids'][1]]
-            v_ = r_.get('v', g.unwrap(r_).get('v'))
-            if g.s(l_) != var or v_ is None:
-                continue
             th = g.N[n['then']]
             if not any(y['k'] == 'ReturnStmt' for y in g.walk(th)):
                 continue
-            caps.append(v_ if cn['op'] == '>' else v_ - 1)       # largest value that passes this test
+            # every disjunct of the refusing condition refuses on its own (`a < MIN || a > MAX || a >= sizeof (x)`)
+            todo = [g.unwrap(g.N[n['cond']])]
+            while todo:
+                cn = todo.pop()
+                if cn.get('k') == 'BinaryOperator' and cn.get('op') == '||':
+                    todo += [g.unwrap(g.N[k_]) for k_ in cn['kids']]
+                    continue
+                if cn.get('k') != 'BinaryOperator' or cn.get('op') not in ('>', '>='):
+                    continue
+                l_, r_ = g.unwrap(g.N[cn['kids'][0]]), g.N[cn['kids'][1]]
+                v_ = r_.get('v', g.unwrap(r_).get('v'))
+                if g.s(l_) != var or v_ is None:
+                    continue
+                caps.append(v_ if cn['op'] == '>' else v_ - 1)       # largest value that passes this test
         return caps
     for tag, reader, setter, writer, rec in (('bext', 'wavlike_read_bext_chunk', 'broadcast_var_set', 'wavlike_write_bext_chunk', 'SF_BROADCAST_INFO_16K'),
                                              ('cart', 'wavlike_read_cart_chunk', 'cart_var_set', 'wavlike_write_cart_chunk', 'SF_CART_INFO_16K')):
